@@ -27,8 +27,8 @@ declare -A CHECKS=(
  [C09i]="C09" [C09j]="C09" [C10i]="C10" [C10j]="C10" [C11i]="C11 C07" [C11j]="C11" [C12i]="C12 C16" [C12j]="C12 C16"
  [C13i]="C13" [C13j]="C13" [C14i]="C14 C07" [C14j]="C14 C15" [C15i]="C15" [C15j]="C15" [C16o]="C16" [C16p]="C16"
  [C17i]="C17 C15" [C17j]="C17" [C18i]="C18" [C18j]="C18 C16"
- [C01k]="C01" [C01l]="C01" [C02k]="C02" [C02l]="C02" [C03k]="C03" [C03l]="C03" [C04k]="C04" [C04l]="C04" [C05k]="C05" [C05l]="C05" [C06k]="C06" [C06l]="C06"
- [C07k]="C07" [C07l]="C07" [C08k]="C08" [C08l]="C08" [C09k]="C09" [C09l]="C09" [C10k]="C10" [C10l]="C10" [C11k]="C11" [C11l]="C11" [C12k]="C12" [C12l]="C12"
+ [C01k]="C01 C18" [C01l]="C01" [C02k]="C02 C16" [C02l]="C02" [C03k]="C03" [C03l]="C03" [C04k]="C04" [C04l]="C04" [C05k]="C05 C10" [C05l]="C05 C10" [C06k]="C06 C16" [C06l]="C06"
+ [C07k]="C07" [C07l]="C07" [C08k]="C08 C10" [C08l]="C08" [C09k]="C09" [C09l]="C09" [C10k]="C10" [C10l]="C10" [C11k]="C11" [C11l]="C11" [C12k]="C12 C16" [C12l]="C12"
  [C13k]="C13" [C13l]="C13" [C14k]="C14" [C14l]="C14" [C15k]="C15" [C15l]="C15" [C16q]="C16" [C16r]="C16" [C17k]="C17" [C17l]="C17" [C18k]="C18" [C18l]="C18"
  [C13c]="C13" [C13d]="C13" [C14c]="C14" [C14d]="C14 C07" [C15c]="C15" [C15d]="C15" [C16c]="C16" [C16d]="C16"
 )
